@@ -1019,7 +1019,7 @@ class Parsent(object):
                     bodyParser.close()
                     break
                 (yield None)
-        except HTTPException as ex:
+        except (HTTPException, ValueError) as ex:  # ValueError from malformed sizes, header lines
             self.errored = True
             self.error = str(ex)
 
